@@ -374,6 +374,10 @@ def scripted(cfg) -> List[Tuple]:
     if rth >= 2:
         short = (none,) + (("tick",),) * (rth - 1) + (both,) + (("tick",), ("read",))
         runs.append((both, ("press", "KEY_Q")) + (("tick",),) * (pth + 1) + short * (rth + 2) + (("tick",), ("read",)) * 2)
+    # injected events around the debounce windows: a release injected inside the release interval, a press injected on a held key
+    runs.append((both, ("press", "KEY_Q")) + (("tick",),) * (pth + 1) + (("release", "KEY_Q"), ("inject", "KEY_Q", 1)) + (("tick",), ("read",)) * (rth + 2))
+    runs.append((both, ("press", "KEY_Q")) + (("tick",),) * (pth + 1) + (("release", "KEY_Q"), ("tick",), ("inject", "KEY_Q", 1)) + (("tick",), ("read",)) * (rth + 2))
+    runs.append((both, ("inject", "KEY_Q", 0), ("inject", "KEY_Q", 1)) + (("tick",), ("read",)) * (rth + 2))
     # FIFO overflow by injection burst
     burst = tuple(("inject", k, r) for _ in range(3) for k in ("KEY_Q", "KEY_E") for r in (0, 1))
     runs.append((both,) + burst + (("tick",), ("read",)))
@@ -471,6 +475,34 @@ def _machine_keyi(args):
     return {"n": n, "vb": vb}
 
 
+def _rust_tick_count(args):
+    """The number of events a Rust scan tick reports equals the number of events it queued (KEYI is raised from that
+    count); with FIFO mirroring disabled nothing is queued, so it must report none, whatever the keys do."""
+    cfg, = args
+    ah, pth = cfg[0], cfg[1]
+    h = rb.harness()
+    vb = VB()
+    q = col_mask(["KEY_Q"])[0]
+    strobe = q if ah else (~q) & 0xFF
+    n = 0
+    for mirror in (True, False):
+        ops = [{"w": [0xF0, strobe]}, {"press": CODE["KEY_Q"]}]
+        for k in range(40):
+            if k == 32:
+                ops.append({"release": CODE["KEY_Q"]})
+            ops.append({"tick": True})
+        out = h.call({"cmd": "kbd", "cfg": {"press": pth, "active_high": ah, "mirror": mirror}, "script": ops})["out"]
+        ticks = [o for o in out if "events" in o and "fifo_before" in o]
+        for k, o in enumerate(ticks):
+            n += 1
+            grown = len(o["fifo"]) - len(o["fifo_before"])
+            if o["events"] != grown and len(o["fifo"]) < 8:
+                vb.add(f"C14/rust/tick-count-differs-from-queued-events/{'mirroring' if mirror else 'mirroring-disabled'}",
+                       f"rust cfg={list(cfg)}: scan tick #{k} (FIFO mirroring {'on' if mirror else 'off'}) reported {o['events']} events but the "
+                       f"queue grew by {grown}", {"impl": "rust-tick-count", "cfg": list(cfg)})
+    return {"n": n, "vb": vb}
+
+
 def _py_keyi(cfg, vb: VB) -> int:
     """KEYI gating through the real machine glue (PCE500Emulator._scan_keyboard_per_instruction)."""
     from pce500.emulator import PCE500Emulator
@@ -503,7 +535,8 @@ def run(ctx) -> None:
     res = pmap(_bfs, jobs)
     sres = pmap(_scripted, [("python", c) for c in py_cfgs + [(True, 6, 6, 24, 6)]] + [("python-handler", c) for c in py_cfgs + [(True, 6, 6, 24, 6)]] + [("rust", c) for c in rs_cfgs + [(True, 6, 6, 24, 6)]])
     mres = pmap(_machine_keyi, [([t],) for t in ((True, 1, 0), (True, 2, 0), (True, 3, 0), (True, 0, 2), (False, 0, 0), (True, 2, 3))])
-    for r in res + sres + mres:
+    tres = pmap(_rust_tick_count, [(c,) for c in rs_cfgs])
+    for r in res + sres + mres + tres:
         ctx.merge_bucket(r["vb"])
     ctx.coverage["machine_keyi_events"] = sum(r["n"] for r in mres)
     ctx.level = "model_checking"
@@ -527,8 +560,13 @@ def run(ctx) -> None:
 
 def replay(ctx, w) -> Optional[str]:
     rb.build()
-    cfg = tuple(w["cfg"]) if w.get("impl") != "machine-keyi" else ()
+    cfg = tuple(w["cfg"]) if w.get("impl") not in ("machine-keyi",) else ()
     vb = VB()
+    if w["impl"] == "rust-tick-count":
+        r = _rust_tick_count((tuple(w["cfg"]),))
+        for sig, (cnt, wl) in r["vb"].d.items():
+            return wl[0][0]
+        return None
     if w["impl"] == "machine-keyi":
         prog, imr, timer, enabled = w["cfg"]
         r = _machine_keyi(([tuple(timer)],))
